@@ -660,12 +660,15 @@ def _c09_case(seed):
     files["core/api/v1/__init__.py"] = ""
     files["core/api/v1/h.py"] = "from core.services.db import conn\n"
     files["core/api/v1/g.py"] = "import core.util.text.fmt\n"
+    # imports of the importing module's own ancestor packages (an object defined in a package's __init__): edges like any other in the full graph and in the quotient
+    files["core/api/v1/h.py"] += f"from {ROOT}.core import SETTINGS\nimport {ROOT}.core.api\n"
+    files["core/services/db/conn.py"] = f"from {ROOT}.core.services import registry\n"
     files["core/util/__init__.py"] = ""
     files["core/util/text/__init__.py"] = ""
     files["core/util/text/fmt.py"] = "import core.api\n"
     files["core/services/__init__.py"] = ""
     files["core/services/db/__init__.py"] = ""
-    files["core/services/db/conn.py"] = f"import {ROOT}.core.api.v1\n"
+    files["core/services/db/conn.py"] += f"import {ROOT}.core.api.v1\n"
     add_imports(files, rng, rng.randint(4, 12))
     out = []
     with temp_project(files, ROOT) as root:
